@@ -436,6 +436,9 @@ def write_replay(pid, plan, violation, res_digest, tag=None, prefix=()):
            'invariant': violation['invariant'],
            'expected': violation.get('detail', {}),
            'trace_digest': res_digest, 'plan': plan}
+    if sys.flags.optimize:
+        # to be replayed under the same interpreter configuration (replay() sees to it)
+        doc['python_optimize'] = sys.flags.optimize
     if prefix:
         # history dependent: these plans are executed first, in the same process
         doc['earlier_plans_in_same_process'] = list(prefix)
@@ -448,6 +451,17 @@ def write_replay(pid, plan, violation, res_digest, tag=None, prefix=()):
 def replay(pid, path):
     """Re-execute a replay file.  Returns (reproduced, result, doc)."""
     doc = json.load(open(path))
+    if int(doc.get('python_optimize', 0)) != sys.flags.optimize:
+        # recorded under another interpreter configuration: replay it there
+        import subprocess
+        cmd = [sys.executable] + (['-O'] if doc.get('python_optimize') else []) + \
+            [os.path.join(VERIF, 'check.py'), doc.get('property', pid), '--replay', path]
+        env = dict(os.environ)
+        env.pop('PYTHONOPTIMIZE', None)
+        out = subprocess.run(cmd, env=env, capture_output=True, text=True, timeout=900)
+        if out.returncode not in (0, 1):
+            raise HarnessError('replay subprocess failed: ' + (out.stdout + out.stderr)[-1500:])
+        return out.returncode == 1, {'violations': [], 'note': out.stdout[-300:]}, doc
     mod = load(doc.get('property', pid))
     pre = doc.get('earlier_plans_in_same_process', [])
     res = execute_seq(mod, list(pre) + [doc['plan']], want_trace=True)[-1]
